@@ -75,7 +75,6 @@ Section Uniprobe.
         end
     end.
 
-  Definition fill_fuel (s : stream) : nat := S (length (stream_bytes s)).
 
   (* the `loop` collecting matrix columns *)
   Inductive cols_res : Type :=
@@ -84,20 +83,23 @@ Section Uniprobe.
   | CPanic (site : nat)
   | CFuel.
 
-  Fixpoint u_columns (fuel : nat) (buf : list N) (line : bool) (s : stream)
+  (* [F]: the fuel handed to the inner u_fill loops; any F above the number of unread bytes
+     will do (IoTotalU.v).  It is computed ONCE per reader (read_fuel) and threaded through:
+     recomputing it from the stream at every line made the extracted model quadratic. *)
+  Fixpoint u_columns (F : nat) (fuel : nat) (buf : list N) (line : bool) (s : stream)
            (acc : list (nat * list F32.t)) : cols_res :=
     match fuel with
     | 0 => CFuel
     | S fuel' =>
         let filled :=
           if line then FLine buf s
-          else u_fill (fill_fuel s) buf s in
+          else u_fill F buf s in
         match filled with
         | FFuel => CFuel
         | FErr b s' => CErr b s'
         | FLine b s' =>
             match u_matrix_column b with
-            | POk _ _ col => u_columns fuel' [] false s' (col :: acc)
+            | POk _ _ col => u_columns F fuel' [] false s' (col :: acc)
             | PErr _ | PFail _ => CDone (rev acc) b true s'
             | PPanic k => CPanic k
             | PFuel => CFuel
@@ -105,7 +107,7 @@ Section Uniprobe.
         | FEof b s' =>
             (* Ok(0) => break: the (empty) buffer is parsed as a column all the same *)
             match u_matrix_column b with
-            | POk _ _ col => u_columns fuel' [] false s' (col :: acc)
+            | POk _ _ col => u_columns F fuel' [] false s' (col :: acc)
             | PErr _ | PFail _ => CDone (rev acc) b false s'
             | PPanic k => CPanic k
             | PFuel => CFuel
@@ -113,12 +115,11 @@ Section Uniprobe.
         end
     end.
 
-  Definition cols_fuel (s : stream) : nat := S (S (S (length (stream_bytes s)))).
 
-  Definition u_next (buggy : bool) (st : ustate) : ustate * res (option (record F32.t)) :=
+  Definition u_next (F : nat) (buggy : bool) (st : ustate) : ustate * res (option (record F32.t)) :=
     let filled :=
       if uline st then FLine (ubuf st) (ustream st)
-      else u_fill (fill_fuel (ustream st)) (ubuf st) (ustream st) in
+      else u_fill F (ubuf st) (ustream st) in
     match filled with
     | FFuel => (st, OutOfFuel)
     | FErr b s => ({| ubuf := b; uline := false; ustream := s |}, Err EIo)
@@ -129,7 +130,7 @@ Section Uniprobe.
         | PPanic k => (st, Panic k)
         | PFuel => (st, OutOfFuel)
         | POk _ _ id =>
-            match u_columns (cols_fuel s) [] false s [] with
+            match u_columns F F [] false s [] with
             | CFuel => (st, OutOfFuel)
             | CPanic k => (st, Panic k)
             | CErr b' s' => ({| ubuf := b'; uline := false; ustream := s' |}, Err EIo)
@@ -151,26 +152,29 @@ Section Uniprobe.
         end
     end.
 
-  Fixpoint u_run (buggy : bool) (fuel : nat) (stop_err : bool) (st : ustate)
+  Fixpoint u_run (F : nat) (buggy : bool) (fuel : nat) (stop_err : bool) (st : ustate)
     : list (res (option (record F32.t))) :=
     match fuel with
     | 0 => [OutOfFuel]
     | S fuel' =>
-        let (st', o) := u_next buggy st in
+        let (st', o) := u_next F buggy st in
         match o with
-        | Ok (Some _) => o :: u_run buggy fuel' stop_err st'
-        | Err _ => if stop_err then [o] else o :: u_run buggy fuel' stop_err st'
+        | Ok (Some _) => o :: u_run F buggy fuel' stop_err st'
+        | Err _ => if stop_err then [o] else o :: u_run F buggy fuel' stop_err st'
         | _ => [o]
         end
     end.
 
+  (* the fuel of one reader: more than the number of bytes of its stream *)
+  Definition read_fuel (s : stream) : nat := S (S (S (length (stream_bytes s)))).
+
   (* Reader::new(stream) then next() until End or the first error *)
   Definition uniprobe_read (s : stream) : list (res (option (record F32.t))) :=
-    u_run false (S (S (length (stream_bytes s)))) true (u_new s).
+    u_run (read_fuel s) false (read_fuel s) true (u_new s).
 
   (* the first [calls] outcomes when the caller goes on after errors *)
   Definition uniprobe_calls (buggy : bool) (calls : nat) (s : stream) : list (res (option (record F32.t))) :=
-    firstn calls (u_run buggy (S calls) false (u_new s)).
+    firstn calls (u_run (read_fuel s) buggy (S calls) false (u_new s)).
 End Uniprobe.
 
 Definition j_calls (precord : parser (record N)) (calls : nat) (caps : nat -> nat) (s : stream)
